@@ -2,7 +2,9 @@
   Y0.Lemmas.CfIdcCollapse — the loop of line 4 that rewrites the outcomes (`exchangeStep`, the code after `fix:` "IDC* returns Zero
   when the exchange makes two outcomes the same variable with different values") against the dict comprehension it replaced
   (`exchangeOutcomes`): when the loop returns a dict it is the dict the comprehension built (`exchangeStep_some`), and it returns
-  `none` only when two outcomes end up under one key with different values (`exchangeStep_none`).
+  `none` only when two outcomes end up under one key with different values or (since `fix:` "IDC* returns Zero when the exchange
+  makes an outcome a remaining condition's variable with a different value") an outcome ends up under the key of a remaining
+  condition that demands a different value (`exchangeStep_none`; `rem` = the remaining conditions).
 -/
 import Y0.Model.IdcStar
 
@@ -17,44 +19,6 @@ theorem exchangeOutcomes_eq (cf : MG Var) (outcomes : Event) (cond : Var) (val :
   unfold exchangeOutcomes
   simp only [bind, Except.bind, pure, Except.pure]
   cases List.mapM (exchangeKey cf cond val) outcomes <;> rfl
-
-theorem exchangeLoop_some (cf : MG Var) (cond : Var) (val : Iv) : ∀ (ps : List (Var × Iv)) (acc e : Event),
-    exchangeLoop cf cond val ps acc = .ok (some e) →
-      ∃ qs, ps.mapM (exchangeKey cf cond val) = .ok qs ∧ qs.foldl (fun a p => Event.set a p.1 p.2) acc = e
-  | [], acc, e, h => by
-    simp only [exchangeLoop, Except.ok.injEq, Option.some.injEq] at h
-    exact ⟨[], rfl, h⟩
-  | p :: ps, acc, e, h => by
-    unfold exchangeLoop at h
-    simp only [bind, Except.bind, pure, Except.pure] at h
-    cases hq : exchangeKey cf cond val p with
-    | error err => rw [hq] at h; cases h
-    | ok q =>
-      rw [hq] at h
-      simp only at h
-      have hrec : exchangeLoop cf cond val ps (acc.set q.1 q.2) = .ok (some e) := by
-        cases hg : acc.get? q.1 with
-        | none => rw [hg] at h; exact h
-        | some v =>
-          rw [hg] at h
-          simp only at h
-          split at h
-          · exact h
-          · cases h
-      obtain ⟨qs, hqs, hfold⟩ := exchangeLoop_some cf cond val ps _ e hrec
-      refine ⟨q :: qs, ?_, ?_⟩
-      · rw [List.mapM_cons]
-        simp only [bind, Except.bind, pure, Except.pure, hq, hqs]
-      · exact hfold
-
-/-- **when the loop of line 4 returns a dict, it is the dict of the comprehension it replaced** -/
-theorem exchangeStep_some (cf : MG Var) (outcomes : Event) (cond : Var) (val : Iv) (e : Event)
-    (h : exchangeStep cf outcomes cond val = .ok (some e)) : exchangeOutcomes cf outcomes cond val = .ok e := by
-  unfold exchangeStep at h
-  obtain ⟨qs, hqs, hfold⟩ := exchangeLoop_some cf cond val outcomes [] e h
-  rw [exchangeOutcomes_eq, hqs]
-  simp only [Event.ofList]
-  rw [hfold]
 
 theorem Event.get?_none_of_not_mem (acc : Event) (k : Var) (h : k ∉ acc.map (·.1)) : acc.get? k = none := by
   unfold Event.get?
@@ -80,15 +44,108 @@ theorem Event.set_of_not_mem (acc : Event) (k : Var) (v : Iv) (h : k ∉ acc.map
       exact h (List.mem_map.2 ⟨p, hp, hpk⟩)
   rw [if_neg (by simp [this])]
 
-/-- **no collision, no Zero**: when the (re-subscripted) keys are pairwise different the loop returns the list of re-keyed outcomes -/
-theorem exchangeLoop_of_nodup (cf : MG Var) (cond : Var) (val : Iv) : ∀ (ps qs : List (Var × Iv)) (acc : Event),
-    ps.mapM (exchangeKey cf cond val) = .ok qs → ((acc ++ qs).map (·.1)).Nodup →
-      exchangeLoop cf cond val ps acc = .ok (some (acc ++ qs))
-  | [], qs, acc, hm, _ => by
+theorem Event.mem_of_get? (acc : Event) (k : Var) (v : Iv) (hg : acc.get? k = some v) : (k, v) ∈ acc := by
+  unfold Event.get? at hg
+  cases hf : acc.find? (fun p => p.1 = k) with
+  | none => rw [hf] at hg; cases hg
+  | some r =>
+    rw [hf] at hg
+    simp only [Option.map_some, Option.some.injEq] at hg
+    have hr := List.find?_some hf
+    have hmem := List.mem_of_find?_eq_some hf
+    simp only [decide_eq_true_eq] at hr
+    rw [← hr, ← hg]
+    exact hmem
+
+theorem remClash_nil (q : Var × Iv) : remClash [] q = false := rfl
+
+theorem remClash_true (rem : Event) (q : Var × Iv) (h : remClash rem q = true) : ∃ v, rem.get? q.1 = some v ∧ v ≠ q.2 := by
+  unfold remClash at h
+  cases hg : rem.get? q.1 with
+  | none => rw [hg] at h; cases h
+  | some v => rw [hg] at h; exact ⟨v, rfl, by simpa using h⟩
+
+theorem remClash_of_get? (rem : Event) (q : Var × Iv) (v : Iv) (hg : rem.get? q.1 = some v) (hne : v ≠ q.2) :
+    remClash rem q = true := by
+  unfold remClash
+  rw [hg]
+  simpa using hne
+
+theorem exchangeLoop_some (cf : MG Var) (cond : Var) (val : Iv) (rem : Event) : ∀ (ps : List (Var × Iv)) (acc e : Event),
+    exchangeLoop cf cond val rem ps acc = .ok (some e) →
+      ∃ qs, ps.mapM (exchangeKey cf cond val) = .ok qs ∧ qs.foldl (fun a p => Event.set a p.1 p.2) acc = e ∧
+        ∀ p ∈ ps, ∀ q, exchangeKey cf cond val p = .ok q → remClash rem q = false
+  | [], acc, e, h => by
+    simp only [exchangeLoop, Except.ok.injEq, Option.some.injEq] at h
+    exact ⟨[], rfl, h, by simp⟩
+  | p :: ps, acc, e, h => by
+    unfold exchangeLoop at h
+    simp only [bind, Except.bind, pure, Except.pure] at h
+    cases hq : exchangeKey cf cond val p with
+    | error err => rw [hq] at h; cases h
+    | ok q =>
+      rw [hq] at h
+      simp only at h
+      have hrec : exchangeLoop cf cond val rem ps (acc.set q.1 q.2) = .ok (some e) ∧ remClash rem q = false := by
+        cases hg : acc.get? q.1 with
+        | none =>
+          rw [hg] at h
+          simp only at h
+          split at h
+          · cases h
+          · rename_i hc; exact ⟨h, by simpa using hc⟩
+        | some v =>
+          rw [hg] at h
+          simp only at h
+          split at h
+          · split at h
+            · cases h
+            · rename_i hc; exact ⟨h, by simpa using hc⟩
+          · cases h
+      obtain ⟨qs, hqs, hfold, hcl⟩ := exchangeLoop_some cf cond val rem ps _ e hrec.1
+      refine ⟨q :: qs, ?_, ?_, ?_⟩
+      · rw [List.mapM_cons]
+        simp only [bind, Except.bind, pure, Except.pure, hq, hqs]
+      · exact hfold
+      · intro p' hp' q' hk'
+        rcases List.mem_cons.1 hp' with h' | h'
+        · rw [h', hq] at hk'
+          cases hk'
+          exact hrec.2
+        · exact hcl p' h' q' hk'
+
+/-- **when the loop of line 4 returns a dict, it is the dict of the comprehension it replaced** -/
+theorem exchangeStep_some (cf : MG Var) (outcomes : Event) (cond : Var) (val : Iv) (rem : Event) (e : Event)
+    (h : exchangeStep cf outcomes cond val rem = .ok (some e)) : exchangeOutcomes cf outcomes cond val = .ok e := by
+  unfold exchangeStep at h
+  obtain ⟨qs, hqs, hfold, _⟩ := exchangeLoop_some cf cond val rem outcomes [] e h
+  rw [exchangeOutcomes_eq, hqs]
+  simp only [Event.ofList]
+  rw [hfold]
+
+/-- **when the loop of line 4 returns a dict, no re-keyed outcome is the variable of a remaining condition with another value** -/
+theorem exchangeStep_some_no_clash (cf : MG Var) (outcomes : Event) (cond : Var) (val : Iv) (rem : Event) (e : Event)
+    (h : exchangeStep cf outcomes cond val rem = .ok (some e)) :
+    ∀ p ∈ outcomes, ∀ q, exchangeKey cf cond val p = .ok q → ∀ v, rem.get? q.1 = some v → v = q.2 := by
+  unfold exchangeStep at h
+  obtain ⟨qs, hqs, _, hcl⟩ := exchangeLoop_some cf cond val rem outcomes [] e h
+  intro p hp q hk v hg
+  apply Decidable.byContradiction
+  intro hne
+  have := remClash_of_get? rem q v hg hne
+  rw [hcl p hp q hk] at this
+  cases this
+
+/-- **no collision, no Zero**: when the (re-subscripted) keys are pairwise different and none of them clashes with a remaining
+condition, the loop returns the list of re-keyed outcomes -/
+theorem exchangeLoop_of_nodup (cf : MG Var) (cond : Var) (val : Iv) (rem : Event) : ∀ (ps qs : List (Var × Iv)) (acc : Event),
+    ps.mapM (exchangeKey cf cond val) = .ok qs → ((acc ++ qs).map (·.1)).Nodup → (∀ q ∈ qs, remClash rem q = false) →
+      exchangeLoop cf cond val rem ps acc = .ok (some (acc ++ qs))
+  | [], qs, acc, hm, _, _ => by
     simp only [List.mapM_nil, pure, Except.pure, Except.ok.injEq] at hm
     subst hm
     simp [exchangeLoop]
-  | p :: ps, qs, acc, hm, hnd => by
+  | p :: ps, qs, acc, hm, hnd, hcl => by
     rw [List.mapM_cons] at hm
     simp only [bind, Except.bind, pure, Except.pure] at hm
     cases hq : exchangeKey cf cond val p with
@@ -110,22 +167,33 @@ theorem exchangeLoop_of_nodup (cf : MG Var) (cond : Var) (val : Iv) : ∀ (ps qs
         simp only [bind, Except.bind, hq]
         rw [Event.get?_none_of_not_mem acc q.1 hnot]
         simp only
+        rw [hcl q List.mem_cons_self]
+        simp only [Bool.false_eq_true, if_false]
         rw [Event.set_of_not_mem acc q.1 q.2 hnot]
-        have := exchangeLoop_of_nodup cf cond val ps qs' (acc ++ [(q.1, q.2)]) hl (by simpa using hnd)
+        have := exchangeLoop_of_nodup cf cond val rem ps qs' (acc ++ [(q.1, q.2)]) hl (by simpa using hnd)
+          (fun q' hq' => hcl q' (List.mem_cons_of_mem _ hq'))
         rw [this]
         simp
 
-theorem exchangeStep_of_nodup (cf : MG Var) (outcomes : Event) (cond : Var) (val : Iv) (qs : List (Var × Iv))
-    (hm : outcomes.mapM (exchangeKey cf cond val) = .ok qs) (hnd : (qs.map (·.1)).Nodup) :
-    exchangeStep cf outcomes cond val = .ok (some qs) := by
+theorem exchangeStep_of_nodup (cf : MG Var) (outcomes : Event) (cond : Var) (val : Iv) (rem : Event) (qs : List (Var × Iv))
+    (hm : outcomes.mapM (exchangeKey cf cond val) = .ok qs) (hnd : (qs.map (·.1)).Nodup)
+    (hcl : ∀ q ∈ qs, ∀ v, rem.get? q.1 = some v → v = q.2) :
+    exchangeStep cf outcomes cond val rem = .ok (some qs) := by
   unfold exchangeStep
-  have := exchangeLoop_of_nodup cf cond val outcomes qs [] hm (by simpa using hnd)
+  have hcl' : ∀ q ∈ qs, remClash rem q = false := by
+    intro q hq
+    cases hc : remClash rem q with
+    | false => rfl
+    | true =>
+      obtain ⟨v, hg, hne⟩ := remClash_true rem q hc
+      exact absurd (hcl q hq v hg) hne
+  have := exchangeLoop_of_nodup cf cond val rem outcomes qs [] hm (by simpa using hnd) hcl'
   simpa using this
 
-theorem exchangeLoop_none (cf : MG Var) (cond : Var) (val : Iv) : ∀ (ps : List (Var × Iv)) (acc : Event),
-    exchangeLoop cf cond val ps acc = .ok none →
+theorem exchangeLoop_none (cf : MG Var) (cond : Var) (val : Iv) (rem : Event) : ∀ (ps : List (Var × Iv)) (acc : Event),
+    exchangeLoop cf cond val rem ps acc = .ok none →
       ∃ p ∈ ps, ∃ q v, exchangeKey cf cond val p = .ok q ∧ v ≠ q.2 ∧
-        ((q.1, v) ∈ acc ∨ ∃ p' ∈ ps, exchangeKey cf cond val p' = .ok (q.1, v))
+        ((q.1, v) ∈ acc ∨ (∃ p' ∈ ps, exchangeKey cf cond val p' = .ok (q.1, v)) ∨ rem.get? q.1 = some v)
   | [], acc, h => by simp [exchangeLoop] at h
   | p :: ps, acc, h => by
     unfold exchangeLoop at h
@@ -146,50 +214,65 @@ theorem exchangeLoop_none (cf : MG Var) (cond : Var) (val : Iv) : ∀ (ps : List
         · rcases List.mem_append.1 hm with h' | h'
           · exact Or.inl h'
           · right; simpa using h'
-      have hrecuse : exchangeLoop cf cond val ps (acc.set q.1 q.2) = .ok none →
+      have hrecuse : exchangeLoop cf cond val rem ps (acc.set q.1 q.2) = .ok none →
           ∃ p0 ∈ p :: ps, ∃ q0 v, exchangeKey cf cond val p0 = .ok q0 ∧ v ≠ q0.2 ∧
-            ((q0.1, v) ∈ acc ∨ ∃ p' ∈ p :: ps, exchangeKey cf cond val p' = .ok (q0.1, v)) := by
+            ((q0.1, v) ∈ acc ∨ (∃ p' ∈ p :: ps, exchangeKey cf cond val p' = .ok (q0.1, v)) ∨ rem.get? q0.1 = some v) := by
         intro hrec
-        obtain ⟨p0, hp0, q0, v, hk0, hne, hor⟩ := exchangeLoop_none cf cond val ps _ hrec
+        obtain ⟨p0, hp0, q0, v, hk0, hne, hor⟩ := exchangeLoop_none cf cond val rem ps _ hrec
         refine ⟨p0, List.mem_cons_of_mem _ hp0, q0, v, hk0, hne, ?_⟩
-        rcases hor with hacc | ⟨p', hp', hk'⟩
+        rcases hor with hacc | ⟨p', hp', hk'⟩ | hrem
         · rcases hmemset _ _ hacc with h' | h'
           · exact Or.inl h'
-          · right
+          · right; left
             refine ⟨p, List.mem_cons_self, ?_⟩
             rw [hq, h']
-        · exact Or.inr ⟨p', List.mem_cons_of_mem _ hp', hk'⟩
+        · exact Or.inr (Or.inl ⟨p', List.mem_cons_of_mem _ hp', hk'⟩)
+        · exact Or.inr (Or.inr hrem)
+      have hclash : remClash rem q = true →
+          ∃ p0 ∈ p :: ps, ∃ q0 v, exchangeKey cf cond val p0 = .ok q0 ∧ v ≠ q0.2 ∧
+            ((q0.1, v) ∈ acc ∨ (∃ p' ∈ p :: ps, exchangeKey cf cond val p' = .ok (q0.1, v)) ∨ rem.get? q0.1 = some v) := by
+        intro hc
+        obtain ⟨v, hg, hne⟩ := remClash_true rem q hc
+        exact ⟨p, List.mem_cons_self, q, v, hq, hne, Or.inr (Or.inr hg)⟩
       cases hg : acc.get? q.1 with
-      | none => rw [hg] at h; exact hrecuse h
+      | none =>
+        rw [hg] at h
+        simp only at h
+        split at h
+        · rename_i hc; exact hclash hc
+        · exact hrecuse h
       | some v =>
         rw [hg] at h
         simp only at h
         split at h
-        · exact hrecuse h
+        · split at h
+          · rename_i hc; exact hclash hc
+          · exact hrecuse h
         · rename_i hne
-          refine ⟨p, List.mem_cons_self, q, v, hq, hne, Or.inl ?_⟩
-          unfold Event.get? at hg
-          cases hf : acc.find? (fun p => p.1 = q.1) with
-          | none => rw [hf] at hg; cases hg
-          | some r =>
-            rw [hf] at hg
-            simp only [Option.map_some, Option.some.injEq] at hg
-            have hr := List.find?_some hf
-            have hmem := List.mem_of_find?_eq_some hf
-            simp only [decide_eq_true_eq] at hr
-            rw [← hr, ← hg]
-            exact hmem
+          exact ⟨p, List.mem_cons_self, q, v, hq, hne, Or.inl (Event.mem_of_get? acc q.1 v hg)⟩
 
-/-- **the loop answers "inconsistent" only when two outcomes end up under ONE key with DIFFERENT values** -/
-theorem exchangeStep_none (cf : MG Var) (outcomes : Event) (cond : Var) (val : Iv)
-    (h : exchangeStep cf outcomes cond val = .ok none) :
+/-- **the loop answers "inconsistent" only when two outcomes end up under ONE key with DIFFERENT values, or an outcome ends up under
+the key of a REMAINING CONDITION that demands a DIFFERENT value** -/
+theorem exchangeStep_none (cf : MG Var) (outcomes : Event) (cond : Var) (val : Iv) (rem : Event)
+    (h : exchangeStep cf outcomes cond val rem = .ok none) :
+    (∃ p ∈ outcomes, ∃ p' ∈ outcomes, ∃ k v v', exchangeKey cf cond val p = .ok (k, v) ∧
+      exchangeKey cf cond val p' = .ok (k, v') ∧ v ≠ v') ∨
+    (∃ p ∈ outcomes, ∃ k v v', exchangeKey cf cond val p = .ok (k, v) ∧ rem.get? k = some v' ∧ v' ≠ v) := by
+  unfold exchangeStep at h
+  obtain ⟨p, hp, q, v, hk, hne, hor⟩ := exchangeLoop_none cf cond val rem outcomes [] h
+  rcases hor with hnil | ⟨p', hp', hk'⟩ | hrem
+  · cases hnil
+  · exact Or.inl ⟨p', hp', p, hp, q.1, v, q.2, hk', hk, hne⟩
+  · exact Or.inr ⟨p, hp, q.1, q.2, v, hk, hrem, hne⟩
+
+/-- the statement before `fix:` "… a remaining condition's variable …": without remaining conditions only the outcome/outcome clash -/
+theorem exchangeStep_none_nil (cf : MG Var) (outcomes : Event) (cond : Var) (val : Iv)
+    (h : exchangeStep cf outcomes cond val [] = .ok none) :
     ∃ p ∈ outcomes, ∃ p' ∈ outcomes, ∃ k v v', exchangeKey cf cond val p = .ok (k, v) ∧
       exchangeKey cf cond val p' = .ok (k, v') ∧ v ≠ v' := by
-  unfold exchangeStep at h
-  obtain ⟨p, hp, q, v, hk, hne, hor⟩ := exchangeLoop_none cf cond val outcomes [] h
-  rcases hor with hnil | ⟨p', hp', hk'⟩
-  · cases hnil
-  · exact ⟨p', hp', p, hp, q.1, v, q.2, hk', hk, hne⟩
+  rcases exchangeStep_none cf outcomes cond val [] h with h' | ⟨p, _, k, v, v', _, hg, _⟩
+  · exact h'
+  · cases hg
 
 end Cf
 end Y0
